@@ -34,7 +34,8 @@ RULE = ('Generated client generations: each opens 1-3 transports and runs a '
         'end, or a raising handler, or an unanswered callback, or a connect '
         'handler that disconnects its own client and returns, or a '
         'transport lost while a connect handler is suspended. The _ending '
-        'and _deciding sets are among the compared containers.')
+        'and _deciding sets are among the compared containers.'
+        ' server.disconnect() can have its DISCONNECT send fail (SocketIsClosedError, OSError), followed by the loss.')
 ASSUMPTIONS = [
     'single-host managers, and a message-queue manager on the host that owns '
     'every client of the history (a silent channel)',
